@@ -195,7 +195,7 @@ func builderFor(id, kind int) avro.CodecBuildFunc {
 	}
 }
 
-var schemaDocs = []string{"", `"string"`, `{"type":"string","logicalType":"custom-2"}`}
+var schemaDocs = []string{"", `"string"`, `{"type":"string","logicalType":"custom-2"}`, `["string","null"]`}
 
 func schemaByID(id int) (avro.Schema, *ref.Schema) {
 	s, err := avro.SchemaFromString(schemaDocs[id])
@@ -221,8 +221,8 @@ func st(t reflect.Type) *state {
 	return s
 }
 
-// ops: 0 Register(f1) 1 Register(f2) 2 RegisterSchema(s1) 3 RegisterSchema(s2)
-var opNames = []string{"Register(f1)", "Register(f2)", "RegisterSchema(s1)", "RegisterSchema(s2)"}
+// ops: 0 Register(f1) 1 Register(f2) 2 RegisterSchema(s1) 3 RegisterSchema(s2) 4 RegisterSchema(s3 = union with null second)
+var opNames = []string{"Register(f1)", "Register(f2)", "RegisterSchema(s1)", "RegisterSchema(s2)", "RegisterSchema(s3=[string,null])"}
 
 func apply(op int, t reflect.Type, kind int) {
 	s := st(t)
@@ -230,7 +230,7 @@ func apply(op int, t reflect.Type, kind int) {
 	case 0, 1:
 		avro.Register(t, builderFor(op+1, kind))
 		s.builder = op + 1
-	case 2, 3:
+	case 2, 3, 4:
 		sc, _ := schemaByID(op - 1)
 		avro.RegisterSchema(t, sc)
 		s.schema = op - 1
@@ -433,6 +433,14 @@ func use(c *fw.Ctx, t reflect.Type, kind int, pos position, hist string, registe
 	if s.schema != 0 {
 		_, tSchema = schemaByID(s.schema)
 	}
+	if tSchema.Type == "union" {
+		// the builder / kind rules see the non-null branch
+		for _, b := range tSchema.Branches {
+			if b.Type != "null" {
+				tSchema = b
+			}
+		}
+	}
 	mustBuild := false
 	switch {
 	case s.builder != 0:
@@ -632,10 +640,13 @@ func runKind(c *fw.Ctx, kind int, depth int) {
 	traces := 0
 	visit := func(t reflect.Type) { states[*st(t)] = true }
 	// (a) histories from the unregistered state: builder-only and schema-only prefixes (length<=3) need a fresh type each
-	for _, alpha := range [][]int{{0, 1}, {2, 3}} {
+	for _, alpha := range [][]int{{0, 1}, {2, 3, 4}} {
 		for _, h := range seqs(alpha, 3) {
 			if len(h) == 0 && alpha[0] == 2 {
 				continue
+			}
+			if alpha[0] == 2 && len(h) == 3 && h[0] != 4 && h[1] != 4 && h[2] != 4 {
+				continue // the fresh-type budget: length-3 schema-only histories only when they involve s3
 			}
 			t := fresh()
 			visit(t)
@@ -655,7 +666,7 @@ func runKind(c *fw.Ctx, kind int, depth int) {
 	}
 	// (b) every history of length <= depth over all four registration operations, on one type whose state is carried over
 	t := fresh()
-	for _, h := range seqs([]int{0, 1, 2, 3}, depth) {
+	for _, h := range seqs([]int{0, 1, 2, 3, 4}, depth) {
 		for i, op := range h {
 			apply(op, t, kind)
 			transitions++
@@ -953,7 +964,7 @@ func init() {
 			if tier == "thorough" {
 				d = 4
 			}
-			return fmt.Sprintf("explicit-state exploration of registration histories on the real global registries, model = (current builder ∈ {none,f1,f2}, current schema ∈ {none,s1,s2}) with 'last registration wins', for custom types of four kinds (named int64, struct, named slice, named string) with instrumented codecs (invocation counters; builder f2 marks its wire data so the codec actually used is observable): (a) from the unregistered state every history of length<=3 over {Register(f1),Register(f2)} and over {RegisterSchema(s1),RegisterSchema(s2)}, each on a type nobody registered before (generic named types give 40 fresh types per kind); (b) every history of length<=%d over all four operations with the state carried over; after every operation the type is used at 11 positions {field,*T,**T,[]T,[]*T,map[string]T,map[string]*T,omitempty,struct{X T},[]struct{X T},map[string][]T}: SchemaForType must show the model's schema there, Schema.Codec must consult exactly the model's builder, every occurrence must go through that builder's codec (counters), bytes must decode under the generated schema with the reference decoder, values must round-trip at codec and file level; controls: never-registered look-alike types and the library's own time.Time / null.* registrations at the same positions; plus every history (one level deeper) over {time.RegisterCodecs(), the application registering its own builder and schema for time.Time}, after each step of which the most recent registration must govern time.Time; distinct_nontrivial counts distinct (type, history, position) uses", d)
+			return fmt.Sprintf("explicit-state exploration of registration histories on the real global registries, model = (current builder ∈ {none,f1,f2}, current schema ∈ {none,s1,s2,s3=[string,null]}) with 'last registration wins', for custom types of four kinds (named int64, struct, named slice, named string) with instrumented codecs (invocation counters; builder f2 marks its wire data so the codec actually used is observable): (a) from the unregistered state every history of length<=3 over {Register(f1),Register(f2)} and over {RegisterSchema(s1),RegisterSchema(s2)}, each on a type nobody registered before (generic named types give 40 fresh types per kind); (b) every history of length<=%d over all four operations with the state carried over; after every operation the type is used at 11 positions {field,*T,**T,[]T,[]*T,map[string]T,map[string]*T,omitempty,struct{X T},[]struct{X T},map[string][]T}: SchemaForType must show the model's schema there, Schema.Codec must consult exactly the model's builder, every occurrence must go through that builder's codec (counters), bytes must decode under the generated schema with the reference decoder, values must round-trip at codec and file level; controls: never-registered look-alike types and the library's own time.Time / null.* registrations at the same positions; plus every history (one level deeper) over {time.RegisterCodecs(), the application registering its own builder and schema for time.Time}, after each step of which the most recent registration must govern time.Time; distinct_nontrivial counts distinct (type, history, position) uses", d)
 		},
 		Assumptions: []string{
 			"a registration cannot be undone, so model state is carried across histories within a worker; states with an unregistered component are only reachable on fresh types",
